@@ -526,6 +526,11 @@ func Sign(info *types.FetchNodeCredentialsInfo, priv ed25519.PrivateKey) *types.
 
 // Request returns the library-made honest request.
 func (a *Actor) Request(opt ...nodeenrollment.Option) *types.FetchNodeCredentialsRequest {
+	if len(a.Creds.RegistrationNonce) == 0 {
+		// after enrollment the library clears the node's nonce; an equivalent
+		// well-signed request is rebuilt from the remembered nonce
+		return Sign(a.Info(), a.CertPriv)
+	}
 	r, err := a.Creds.CreateFetchNodeCredentialsRequest(context.Background(), opt...)
 	if err != nil {
 		panic(fmt.Sprintf("CreateFetchNodeCredentialsRequest: %v", err))
